@@ -99,7 +99,7 @@ def guarded_build(chk, P, rule, what, text):
     try:
         return build(P, text)
     except ConstructionFailed as e:
-        chk.ob(rule, "%s can be read (ConfigParser construction)" % what, False, site=P.cls(CP, "ConfigParser").lookup("__init__").site(),
+        chk.ob(rule, "%s can be read (ConfigParser construction)" % what, False, site=P.cls(CP, "ConfigParser").site_of("__init__"),
                found="raises %r" % (e.exc,), expect="accepted", key="%s|construct|%s" % (rule, what))
         return None
 
@@ -128,7 +128,7 @@ def raw_views(chk, P):
     (I0, cp0), (I1, cp1) = r0, r1
     raw0, raw1 = I0.getattr(cp0, "raw_config_parser"), I1.getattr(cp1, "raw_config_parser")
     var_names = [k.v for k, _ in raw1.attrs["_defaults"].items.values()]
-    site = P.cls(CP, "_RawConfigParser").lookup("options").site() if P.cls(CP, "_RawConfigParser").lookup("options") else P.module(CP).relpath
+    site = P.cls(CP, "_RawConfigParser").site_of("options") if P.cls(CP, "_RawConfigParser").lookup("options") else P.module(CP).relpath
     for k, d in raw0.attrs["_sections"].items.values():
         own = [kk.v for kk, _ in d.items.values()]
         probes = own + var_names
@@ -175,11 +175,11 @@ def accessors(chk, P):
         chk.ob("C15.O2", "ConfigParser.%s" % pname, r[0] == r[1] and r[0][0] == "ok", site=fi.site() if fi else None,
                found=r[1] if r[0] != r[1] else (r[0] if r[0][0] != "ok" else None), expect=r[0], key="C15.O2|%s" % pname)
     r = both("parse_pair_like", lambda I, cp: I.call(I.getattr(cp, "parse_pair_like"), [Const("EAM-ADP-Dipole")], {}))
-    chk.ob("C15.O2", "ConfigParser.parse_pair_like('EAM-ADP-Dipole')", r[0] == r[1] and r[0][0] == "ok", site=cls.lookup("parse_pair_like").site(),
+    chk.ob("C15.O2", "ConfigParser.parse_pair_like('EAM-ADP-Dipole')", r[0] == r[1] and r[0][0] == "ok", site=cls.site_of("parse_pair_like"),
            found=r[1], expect=r[0], key="C15.O2|parse_pair_like")
     for attr in ("target", "cutoff", "nr", "cutoff_rho", "nrho"):
         r = both(attr, lambda I, cp: I.getattr(I.getattr(cp, "tabulation"), attr))
-        chk.ob("C15.O2", "ConfigParser.tabulation.%s" % attr, r[0] == r[1] and r[0][0] == "ok", site=cls.lookup("tabulation").site(),
+        chk.ob("C15.O2", "ConfigParser.tabulation.%s" % attr, r[0] == r[1] and r[0][0] == "ok", site=cls.site_of("tabulation"),
                found=r[1], expect=r[0], key="C15.O2|tabulation.%s" % attr)
     # --list-items: same items apart from the Variables block itself
     fi = P.func("atsim.potentials.tools.potable._query_actions", "action_list_items")
@@ -246,7 +246,7 @@ A.atomic_mass : 1000.0
     for attr in ("nr", "cutoff"):
         a = _norm(It.getattr(It.getattr(cpt, "tabulation"), attr))
         b = _norm(Ip.getattr(Ip.getattr(cpp, "tabulation"), attr))
-        chk.ob("C15.O3", "[Tabulation] %s given through a placeholder" % attr, a == b, site=cls.lookup("tabulation").site(), found=a, expect=b,
+        chk.ob("C15.O3", "[Tabulation] %s given through a placeholder" % attr, a == b, site=cls.site_of("tabulation"), found=a, expect=b,
                key="C15.O3|tabulation.%s" % attr)
     # unresolvable placeholder -> configuration error
     cfg = P.cls("atsim.potentials.config._common", "ConfigurationException")
@@ -257,7 +257,7 @@ A.atomic_mass : 1000.0
     except RaiseSignal as e:
         out = e.exc
     ok = isinstance(out, ExcV) and isinstance(out.cls, ClassV) and out.cls.ci.is_subclass_of(cfg)
-    chk.ob("C15.O3", "an unresolvable ${...} is a configuration error", ok, site=P.cls(CP, "_RawConfigParser").lookup("get").site()
+    chk.ob("C15.O3", "an unresolvable ${...} is a configuration error", ok, site=P.cls(CP, "_RawConfigParser").site_of("get")
            if P.cls(CP, "_RawConfigParser").lookup("get") else None, found=out, expect="ConfigurationException", key="C15.O3|unresolvable")
 
 
@@ -266,7 +266,7 @@ def construction(chk, P):
     M.install_rawconfigparser(I)
     raw = I.instantiate(P.cls(CP, "_RawConfigParser"), [], {}, None)
     kw = raw.attrs.get("@init_kwargs", {})
-    site = P.cls(CP, "_RawConfigParser").lookup("__init__").site()
+    site = P.cls(CP, "_RawConfigParser").site_of("__init__")
     ds = kw.get("default_section")
     chk.ob("C15.O4", "default_section is 'Variables'", isinstance(ds, Const) and ds.v == "Variables", site=site, found=ds, expect="Variables",
            key="C15.O4|default_section")
